@@ -524,32 +524,57 @@ def gen_queue_find(default_tree):
         raise Unsupported("queue_find signature")
     qn, keyn, rmn = a
     body = [s for s in body_no_doc(fn) if not isinstance(s, ast.Expr) or not isinstance(s.value, ast.Constant)]
-    if len(body) != 2 or not isinstance(body[0], ast.For) or body[0].orelse:
-        raise Unsupported("queue_find is no longer `for ...: ...` followed by a return")
-    loop, tail = body
-    if not (isinstance(tail, ast.Return) and isinstance(tail.value, ast.Constant) and tail.value.value is None):
-        raise Unsupported("queue_find: statement after the loop")
-    it = loop.iter
-    # the iterated sequence: reversed(list(queue)) | list(queue) | reversed(queue) | queue
+    seqvars = {}
+
+    # a sequence of the queue's elements: reversed(list(queue)) | list(queue) | reversed(queue) | queue | a local snapshot
     def seq(e):
         if isinstance(e, ast.Name) and e.id == qn:
             return "q"
+        if isinstance(e, ast.Name) and e.id in seqvars:
+            return seqvars[e.id]
         if isinstance(e, ast.Call) and isinstance(e.func, ast.Name) and len(e.args) == 1 and not e.keywords:
             if e.func.id in ("list", "tuple"):
                 return seq(e.args[0])
             if e.func.id == "reversed":
                 return f"{seq(e.args[0])}.reverse"
         raise Unsupported("queue_find: iterated sequence")
+
+    # local snapshots taken before the loop (nothing mutates the queue in between)
+    while body:
+        b0 = body[0]
+        if isinstance(b0, ast.Assign) and len(b0.targets) == 1 and isinstance(b0.targets[0], ast.Name):
+            seqvars[b0.targets[0].id] = seq(b0.value)
+        elif isinstance(b0, ast.Expr) and isinstance(b0.value, ast.Call) and isinstance(b0.value.func, ast.Attribute) \
+                and b0.value.func.attr == "reverse" and not b0.value.args and isinstance(b0.value.func.value, ast.Name) \
+                and b0.value.func.value.id in seqvars:
+            seqvars[b0.value.func.value.id] += ".reverse"      # in-place reversal of a local snapshot
+        else:
+            break
+        body = body[1:]
+    if len(body) != 2 or not isinstance(body[0], ast.For) or body[0].orelse:
+        raise Unsupported("queue_find is no longer `for ...: ...` followed by a return")
+    loop, tail = body
+    if not (isinstance(tail, ast.Return) and isinstance(tail.value, ast.Constant) and tail.value.value is None):
+        raise Unsupported("queue_find: statement after the loop")
+    it = loop.iter
     if not isinstance(loop.target, ast.Name):
         raise Unsupported("queue_find: loop target")
     hn = loop.target.id
-    if len(loop.body) != 1 or not isinstance(loop.body[0], ast.If) or loop.body[0].orelse:
-        raise Unsupported("queue_find: loop body is not a single `if key(handle):`")
-    test = loop.body[0].test
-    if not (isinstance(test, ast.Call) and isinstance(test.func, ast.Name) and test.func.id == keyn
-            and len(test.args) == 1 and isinstance(test.args[0], ast.Name) and test.args[0].id == hn):
-        raise Unsupported("queue_find: test is not key(handle)")
-    inner = loop.body[0].body
+
+    def is_key_test(t):
+        return (isinstance(t, ast.Call) and isinstance(t.func, ast.Name) and t.func.id == keyn
+                and len(t.args) == 1 and isinstance(t.args[0], ast.Name) and t.args[0].id == hn)
+
+    lb = loop.body
+    first = lb[0] if lb else None
+    if len(lb) == 1 and isinstance(first, ast.If) and not first.orelse and is_key_test(first.test):
+        inner = first.body                                   # if key(handle): …; return handle
+    elif isinstance(first, ast.If) and not first.orelse and isinstance(first.test, ast.UnaryOp) \
+            and isinstance(first.test.op, ast.Not) and is_key_test(first.test.operand) \
+            and len(first.body) == 1 and isinstance(first.body[0], ast.Continue):
+        inner = lb[1:]                                       # if not key(handle): continue; …; return handle
+    else:
+        raise Unsupported("queue_find: loop body is neither `if key(handle): …` nor a `continue` guard on it")
     if not ends_in_exit(inner):
         raise Unsupported("queue_find: the match branch does not return")
     dp = DequeProg("q", [], elems=["h"], ret="optelem")
@@ -596,6 +621,11 @@ class PredTr:
         if isinstance(e, ast.UnaryOp) and isinstance(e.op, ast.Not):
             return f"(!{self.expr(e.operand, bound)})"
         if isinstance(e, ast.BoolOp) and isinstance(e.op, ast.Or):
+            t = self._is_none_test(e.values[0])
+            if t is not None and t[1] and len(e.values) >= 2:      # `X is None or <rest, where X is not None>`
+                rest = e.values[1] if len(e.values) == 2 else ast.BoolOp(op=ast.Or(), values=e.values[1:])
+                inner = self.expr(rest, {**bound, t[0]: f"{t[0]}_v"})
+                return f"(match {self.opts[t[0]]} with | none => true | some {t[0]}_v => {inner})"
             return "(" + " || ".join(self.expr(v, bound) for v in e.values) + ")"
         if isinstance(e, ast.BoolOp) and isinstance(e.op, ast.And):
             first, rest = e.values[0], e.values[1:]
@@ -608,6 +638,9 @@ class PredTr:
         x = self._is_not_none(e)
         if x is not None:
             return f"{self.opts[x]}.isSome"
+        t = self._is_none_test(e)
+        if t is not None and t[1]:
+            return f"(!{self.opts[t[0]]}.isSome)"
         if isinstance(e, ast.Call) and not e.args and isinstance(e.func, ast.Attribute) and e.func.attr == "done" \
                 and isinstance(e.func.value, ast.Name):
             base = e.func.value.id
@@ -629,58 +662,50 @@ class PredTr:
         return None
 
     def _is_none_test(self, e):
-        """`x is None` / `not x` for an Optional local x -> x"""
-        if isinstance(e, ast.Compare) and len(e.ops) == 1 and isinstance(e.ops[0], ast.Is) \
+        """(name, positive?) for `X is None` (True) / `X is not None` (False) on an optional local"""
+        if isinstance(e, ast.Compare) and len(e.ops) == 1 and isinstance(e.ops[0], (ast.Is, ast.IsNot)) \
                 and isinstance(e.left, ast.Name) and e.left.id in self.opts \
                 and isinstance(e.comparators[0], ast.Constant) and e.comparators[0].value is None:
-            return e.left.id
-        if isinstance(e, ast.UnaryOp) and isinstance(e.op, ast.Not) and isinstance(e.operand, ast.Name) \
-                and e.operand.id in self.opts:
-            return e.operand.id
+            return e.left.id, isinstance(e.ops[0], ast.Is)
         return None
 
-    def body(self, stmts, bound=None):
-        """assignments of `task._fut_waiter`, then `return e` - possibly behind early returns
-        (`if c: return a` followed by the rest  =  `if c then a else rest`; after `if x is None: return a`
-        the Optional x is known to be a value in the rest)"""
-        bound = bound or {}
-        out = []
-        for i, s in enumerate(stmts):
-            tgt = val = None
-            if isinstance(s, ast.AnnAssign) and isinstance(s.target, ast.Name) and s.value is not None:
-                tgt, val = s.target.id, s.value
-            elif isinstance(s, ast.Assign) and len(s.targets) == 1 and isinstance(s.targets[0], ast.Name):
-                tgt, val = s.targets[0].id, s.value
-            if tgt is not None:
-                if isinstance(val, ast.Attribute) and isinstance(val.value, ast.Name) and val.value.id == self.task \
-                        and val.attr == "_fut_waiter":
-                    self.opts[tgt] = f"{tgt}_"
-                    out.append(f"  let {tgt}_ := {self.task}.futWaiter")
-                    continue
-                raise Unsupported("assignment in a predicate")
-            if isinstance(s, ast.Return):
-                out.append("  " + self.expr(s.value, bound))
-                return "\n".join(out)
-            if isinstance(s, ast.If):
-                rest = list(s.orelse) + list(stmts[i + 1:])
-                then = self.body(list(s.body), bound).strip()
-                x = self._is_none_test(s.test)
-                y = self._is_not_none(s.test)
-                if isinstance(s.test, ast.Name) and s.test.id in self.opts:
-                    y = s.test.id
-                if x is not None:
-                    other = self.body(rest, {**bound, x: f"{x}_v"}).strip()
-                    out.append(f"  (match {self.opts[x]} with | none => ({then}) | some {x}_v => ({other}))")
-                elif y is not None:
-                    then = self.body(list(s.body), {**bound, y: f"{y}_v"}).strip()
-                    other = self.body(rest, bound).strip()
-                    out.append(f"  (match {self.opts[y]} with | none => ({other}) | some {y}_v => ({then}))")
-                else:
-                    other = self.body(rest, bound).strip()
-                    out.append(f"  (if {self.expr(s.test, bound)} then ({then}) else ({other}))")
-                return "\n".join(out)
-            raise Unsupported(f"statement {type(s).__name__} in a predicate")
-        raise Unsupported("predicate may fall off its end")
+    def body(self, stmts, bound=None, ind="  "):
+        """statements: optional-local bindings, `if`s with early returns (guard clauses), `return`"""
+        bound = dict(bound or {})
+        if not stmts:
+            raise Unsupported("predicate may fall off its end")
+        s, rest = stmts[0], stmts[1:]
+        tgt = val = None
+        if isinstance(s, ast.AnnAssign) and isinstance(s.target, ast.Name) and s.value is not None:
+            tgt, val = s.target.id, s.value
+        elif isinstance(s, ast.Assign) and len(s.targets) == 1 and isinstance(s.targets[0], ast.Name):
+            tgt, val = s.targets[0].id, s.value
+        if tgt is not None:
+            if isinstance(val, ast.Attribute) and isinstance(val.value, ast.Name) and val.value.id == self.task \
+                    and val.attr == "_fut_waiter":
+                self.opts[tgt] = f"{tgt}_"
+                return f"{ind}let {tgt}_ := {self.task}.futWaiter\n" + self.body(rest, bound, ind)
+            raise Unsupported("assignment in a predicate")
+        if isinstance(s, ast.Return):
+            return ind + self.expr(s.value, bound)
+        if isinstance(s, ast.If):
+            def cont(branch):
+                return branch + ([] if (branch and isinstance(branch[-1], ast.Return)) else rest)
+            t = self._is_none_test(s.test)
+            if t is None and isinstance(s.test, ast.UnaryOp) and isinstance(s.test.op, ast.Not) \
+                    and isinstance(s.test.operand, ast.Name) and s.test.operand.id in self.opts:
+                t = (s.test.operand.id, True)          # `if not future:` — a Future object is always truthy
+            if t is not None:
+                x, is_none_branch = t
+                nb, sb = (s.body, s.orelse) if is_none_branch else (s.orelse, s.body)
+                none_txt = self.body(cont(nb), bound, ind + "  ")
+                some_txt = self.body(cont(sb), {**bound, x: f"{x}_v"}, ind + "  ")
+                return (f"{ind}match {self.opts[x]} with\n{ind}| none =>\n{none_txt}\n"
+                        f"{ind}| some {x}_v =>\n{some_txt}")
+            c = self.expr(s.test, bound)
+            return (f"{ind}if {c} = true then\n{self.body(cont(s.body), bound, ind + '  ')}\n"
+                    f"{ind}else\n{self.body(cont(s.orelse), bound, ind + '  ')}")
+        raise Unsupported(f"statement {type(s).__name__} in a predicate")
 
 
 def gen_sched(src: Path) -> str:
